@@ -443,18 +443,18 @@ def o155(ctx):
         SHAPE_ONLY = (".transpose", ".copy", "numpy.transpose", "numpy.ascontiguousarray", "numpy.array", "numpy.asarray", "numpy.copy", "numpy.expand_dims",
                       ".reshape", "numpy.reshape", "numpy.atleast_3d", "numpy.swapaxes", ".swapaxes", "numpy.moveaxis")
 
-        def values_kept(x):
+        def values_kept(x, base=sym("arr")):
             """does x hold arr's values, re-arranged at most? True / False / None (an operation the rule gives no meaning to)"""
-            if x == sym("arr"):
+            if x == base:
                 return True
             if x.op == "ite":
-                a_, b_ = values_kept(x.args[1]), values_kept(x.args[2])
+                a_, b_ = values_kept(x.args[1], base), values_kept(x.args[2], base)
                 return None if None in (a_, b_) else (a_ and b_)
             if x.op == "call" and x.args[0] in SHAPE_ONLY and len(x.args) >= 2:
-                return values_kept(x.args[1])
+                return values_kept(x.args[1], base)
             if x.op == "call" and x.args[0] == "getitem" and len(x.args) == 3 and all(n.op in ("vec", "const", "call") for n in tm.walk(x.args[2])) \
                     and all(n.args[0] == "slice" for n in tm.walk(x.args[2]) if n.op == "call") and all(tm.cval(n) is None for n in tm.walk(x.args[2]) if n.op == "const"):
-                return values_kept(x.args[1])  # a[None, :, :] and friends
+                return values_kept(x.args[1], base)  # a[None, :, :] and friends
             if x.op == "call" and x.args[0] in (".astype", "cast", "numpy.float32", "numpy.nan_to_num", "numpy.clip", "numpy.round") or x.op in ("mul", "add", "sub", "div", "narrow", "round"):
                 return False
             return None
@@ -476,6 +476,18 @@ def o155(ctx):
     if not rd or tr is None or not (is_pyconst(tr) and pyval(tr) is False) or tm.has_call(to_term(me.attrs.get("data")), ".transpose"):
         ctx.finding(q, rd[0].node if rd else fn, "a stack file is read without axis permutation (transpose=False) whatever input_order says",
                     rd[0].node if rd else fn, m)
+    # ... and holds the file's array as read: a stack passed as a file gives the same results as the same stack passed as an array
+    if rd and rd[0].extra.get("ret") is not None and me.attrs.get("data") is not None:
+        base_ = to_term(rd[0].extra["ret"])
+        held_ = to_term(me.attrs["data"])
+        kept_ = values_kept(held_, base_)
+        ctx.count(1, {"file input, internal data": tm.show(held_)[:100]})
+        if kept_ is None:
+            raise Unsupported(f"data held by TiltStack(file) not recognised: {tm.show(held_)[:100]}", fn)
+        if kept_ is False:
+            ctx.finding(q, "values of a stack given as a file", "TiltStack(file) must hold the array read from the file unchanged; it holds "
+                        f"{tm.show(held_)[:140]}: element type or values change on the way in for some files, so the same stack gives other results "
+                        "(another type, other block means) as a file than as an array", fn, m)
     qc = TS + "TiltStack.correct_order"
     mc, fc = ctx.prog.func(qc)
     for out, cur, want in (("xyz", "zyx", True), ("zyx", "zyx", False)):
